@@ -18,7 +18,7 @@ claim("C01",
       "The end-to-end obligation is decided as step lemmas over the real code: (1) fan-out of admitted alerts to every live subscriber in order (map order of subscribers explored); (2) insert-or-create never "
       "loses an alert while flush/destroy/maintenance interleave; (3) the real aggregation-group run loop on a virtual clock: first flush <= group_wait after ingestion (at once for old alerts), every later flush "
       "exactly one group_interval after the previous tick, whatever the deliveries do (deliver, fail, hang until the deadline), every flush lists the firing alert; (4) with the receiver's real stage and the real "
-      "notification log, failing deliveries record nothing and every following interval retries until one succeeds, after which the unchanged group is quiet.",
+      "notification log, failing deliveries record nothing and every following interval retries until one succeeds, after which the unchanged group is quiet; (5) behind the real fan-out a rejecting or hanging integration never keeps a slow but healthy sibling from being sent and recording the notification.",
       "The composition (timers fire, goroutines are scheduled, HTTP, config reload, cluster wait) is assumed, not verified; bounds: 2-4 alerts, 2 subscribers, 3-4 flushes, 1 route, preemption bound 1 (quick) / 2. "
       "The must-notify direction of the dedup decision is C04's oracle. " + TRUSTED, "4 C01")
 claim("C02",
@@ -34,14 +34,14 @@ claim("C03",
       "The subscription goroutine is outside (processAlert is driven directly). " + TRUSTED, "4 C03")
 claim("C04",
       "The dedup decision function is compared with the property's rule for every previous log entry, every firing/resolved set over a 3-alert universe, every "
-      "repeat interval and instant; the repeat window is checked on the real DedupStage+SetNotifiesStage+nflog with GC at arbitrary instants and the tick time taken from the context.",
-      "Bounds: 3 alert hashes, 1 group/receiver, one repeat window. Timers and dispatcher restart are outside. " + TRUSTED, "4 C04")
+      "repeat interval and instant; the repeat window is checked on the real DedupStage+SetNotifiesStage+nflog with GC at arbitrary instants and the tick time taken from the context; histories of 3-4 flushes with symbolic gaps, per-flush firing/resolved sets and failing deliveries against the rule applied to the last recorded notification; classification at the wall clock when the tick lags.",
+      "Bounds: 3 alert hashes, 1 group/receiver, one repeat window; histories of 3 (quick) / 4 flushes over 2 alerts. Timers and dispatcher restart are outside. " + TRUSTED, "4 C04")
 claim("C05",
       "One flush of a real aggregation group with 2-3 alerts whose ends lie anywhere around the flush instant, a delivery that takes symbolic time, may fail, and during which an alert may fire "
-      "again: what is handed over as resolved/firing, that firing alerts cannot resolve in flight, deletion iff delivered+resolved+unmodified, destruction iff empty, re-fired alert reported firing next time.",
-      "Bounds: <=3 alerts, 2 flushes, one re-fire. send_resolved filtering is covered under C20, the 'nothing to send' decision under C04. Timers are outside. " + TRUSTED, "4 C05")
+      "again: what is handed over as resolved/firing, that firing alerts cannot resolve in flight, deletion iff delivered+resolved+unmodified, destruction iff empty, re-fired alert reported firing next time. The receiver's real pipeline (fan-out goroutines, dedup, retry, record, real nflog) with one or two integrations of either send_resolved setting over two flushes: without send_resolved no resolved alert is ever listed, with it the batch is listed exactly and a resolution is reported at the next flush; a group resolved before its first flush sends nothing.",
+      "Bounds: <=3 alerts, 2 flushes, one re-fire, 2 integrations, preemption bound 1/2. the 'nothing to send' decision under C04. Timers are outside. " + TRUSTED, "4 C05")
 claim("C06",
-      "Group labels and group membership for every group_by setting and label-set pair; group keys identical across two independently built dispatchers, depending only on the matcher path and the group labels; "
+      "Group labels and group membership for every group_by setting (unset, any subset, empty list, '...') on a root or on a child under a parent with any setting, and every label-set pair; group keys identical across two independently built dispatchers, depending only on the matcher path and the group labels; "
       "exactly one group per matching route; the /alerts/groups view equals the partition; no split / no lost alert / consistent counters under interleavings of two ingestions, a destroying flush and maintenance.",
       "Bounds: 3 group_by labels, 5 label sets, a 5-route tree, 4 concurrent steps, preemption bound 1 (quick) / 2 (thorough). Counterexample schedules are confirmed natively only as linearised twins (whole steps in "
       "sequence); an interleaving that needs a mid-step switch is reported as inconclusive (exit 2), not as a pass. " + TRUSTED, "4 C06")
@@ -52,7 +52,7 @@ claim("C07",
 claim("C08",
       "2-3 instances hold the same firing group; each runs the receiver's real stage (ClusterWait with position x peer_timeout, Dedup against its own real nflog, Retry, SetNotifies) as goroutines on a virtual clock and "
       "gossips its log entry to the others with a symbolic delay or loses it; one instance may die right after the receiver accepted, before recording. Decided: at least one notification under every loss/delay/crash pattern; "
-      "exactly one when every entry arrives faster than peer_timeout, nobody crashes and later positions do not flush earlier; an instance never sends twice.",
+      "exactly one when every entry arrives faster than peer_timeout, nobody crashes and later positions do not flush earlier; an instance never sends twice. After a partition, one full-state message (MarshalBinary->Merge) makes the second instance silent for every group the first already notified.",
       "Bounds: 2 instances (quick) / 3 (thorough), one group, one flush round, delays 0..40 s, skew 0..20 s. memberlist, partitions beyond loss/delay of single entries, Settle, the position computation from the member list and "
       "the flush-timeout extension in app.setup are outside. " + TRUSTED, "4 C08")
 claim("C09",
@@ -86,13 +86,13 @@ claim("C15",
       "ContainsTime is compared with the documented meaning for every accepted interval specification (up to 1-2 ranges per field, each field possibly absent, symbolic bounds) and for every "
       "minute of the years 1970..2099: the instant is an abstract Gregorian date-time whose components are symbolic and tied together exactly (month lengths, leap years, weekday, Unix seconds). "
       "The mute/active stages are run with the real Intervener at an arbitrary tick.",
-      "Bounds: 1 range per field (quick) / 2 (thorough), years 1970..2099 (the century leap exceptions are outside), UTC. Go's calendar arithmetic and zone database (t.In, DST) are trusted; "
+      "Bounds: 1 range per field (quick) / 2 (thorough), years 1970..2099 (the century leap exceptions are outside); interval location absent or any fixed offset within +-14h (zone databases with transitions, DST, are outside). Go's calendar arithmetic is trusted; "
       "the engine's calendar model is cross-checked natively on every sampled path. The HH:MM and name parsers and YAML are outside. " + TRUSTED, "4 C15")
 claim("C16",
       "The UTF-8 matcher lexer/parser is executed on an arbitrary buffer of up to 4 (quick) / 6 (thorough) symbolic bytes: no panic, termination within the unwinding bound; printing a matcher "
       "with any operator and an arbitrary valid UTF-8 value of up to 4/6 bytes and parsing it back is the identity (also in a list); match semantics for all operators with symbolic label values, "
-      "missing/empty labels, conjunction/disjunction and regex anchoring; the fallback decision table on inputs covering every verdict combination of the two real parsers.",
-      "Bit-vector arithmetic. The regexp engine is not interpreted (regular expressions come from pools; the classic parser, itself a regexp, only runs on concrete inputs); names with reserved "
+      "missing/empty labels, conjunction/disjunction and regex anchoring (compiled regexp programs run symbolically on values of up to 3 arbitrary bytes); the classic parser (list splitting, its regular expression, unescaping) on the printed form of 1-2 matchers with arbitrary valid UTF-8 values of up to 2/3 bytes; the fallback decision table on inputs covering every verdict combination of the two real parsers.",
+      "Bit-vector arithmetic. Regexp compilation is native (patterns come from pools), matching is a symbolic backtracking interpreter of the compiled program; names with reserved "
       "characters (strconv.Quote) and inputs longer than the bound are outside. " + TRUSTED, "4 C16")
 claim("C17",
       "Only the post-decode half of the statement: the real validators (Config, Route, Receiver, time-interval UnmarshalYAML bodies and Load's root checks) run on decoded configurations of bounded shape (valid ones and every "
@@ -113,9 +113,9 @@ claim("C19",
 claim("C20",
       "The real RetryStage against a scripted integration for every per-attempt outcome sequence (success / recoverable / unrecoverable / hang) of up to 3-4 attempts and every deadline position; "
       "the receiver's real stage (ClusterWait->Dedup->Retry->SetNotifies per integration under Fanout, real goroutines explored) for record-after-success and sibling isolation; Retrier.Check for every status "
-      "code; webhook max_alerts; the template data laws (exact batch, status, common labels/annotations as intersections).",
-      "Bounds: 4 attempts, 2 integrations, 3 alerts. The back-off ticker is a stub that ticks whenever the scheduler picks it (back-off durations outside); HTTP, template execution, the concrete notifiers "
-      "and text truncation of symbolic strings are outside. " + TRUSTED, "4 C20")
+      "code; webhook max_alerts; the template data laws (exact batch, status, common labels/annotations as intersections); byte and rune truncation of arbitrary valid UTF-8 strings of up to 6/8 bytes for every limit 0..8.",
+      "Bounds: 4 attempts, 2 integrations, 3 alerts. The back-off ticker is a stub that ticks whenever the scheduler picks it (back-off durations outside); HTTP, template execution and the concrete notifiers "
+      "are outside. " + TRUSTED, "4 C20")
 
 ALL = ["C%02d" % i for i in range(1, 21)]
 for p in ALL:
